@@ -101,6 +101,18 @@ SvcCreate(s, o, c) ==
        ELSE R([s EXCEPT !.dev = (@ \ {d}) \cup {Dev(o, d.ip, FALSE)},
                         !.veth = @ \cup {o}], d.ip)
 
+(* on_create_request when the creation of the interface pair is refused ('ip link add' fails): what was
+   done before that point stays - the address is allocated and recorded, there is no device; the request
+   fails and is retried later (the retry re-uses the recorded address).  Only for an owner the service
+   has no record of (the generator's guard). *)
+SvcCreateFail(s, o, c) ==
+  IF ~HasDev(s, o)
+  THEN IF c = "-"
+       THEN R(s, "raise")
+       ELSE R([s EXCEPT !.vips = Put(@, c, o), !.dev = @ \cup {Dev(o, c, FALSE)}], "raise")
+  ELSE IF o \in s.veth THEN SvcCreate(s, o, c)      \* the pair exists: nothing to refuse
+  ELSE R(s, "raise")                               \* refused again, nothing changes
+
 (* on_delete_request *)
 SvcDelete(s, o) ==
   LET s1 == [s EXCEPT !.veth = @ \ {o}] IN
@@ -130,7 +142,7 @@ SvcSynchronize(s) ==
 Choices(s, ev, a) ==
   LET fresh == IF FreeHosts(s) = {} THEN {"-"} ELSE FreeHosts(s) IN
   CASE ev = "VipAlloc" -> fresh
-    [] ev = "OnCreate" -> IF HasDev(s, a[1]) THEN {"-"} ELSE fresh
+    [] ev \in {"OnCreate", "OnCreateFail"} -> IF HasDev(s, a[1]) THEN {"-"} ELSE fresh
     [] ev = "Import"   -> IF HasDev(s, a[1]) \/ a[1] \notin s.live THEN {"-"} ELSE fresh
     [] OTHER -> {"-"}
 
@@ -205,6 +217,7 @@ Step(s, ev, a, c) ==
          IF a[1] \in s.live THEN SvcCreate(s1, a[1], c) ELSE R(s1, "skip")
     [] ev = "Synchronize" -> R(SvcSynchronize(s), "ok")
     [] ev = "OnCreate" -> SvcCreate(s, a[1], c)
+    [] ev = "OnCreateFail" -> SvcCreateFail(s, a[1], c)
     [] ev = "OnDelete" -> R([SvcDelete(s, a[1]) EXCEPT !.pend = @ \ {a[1]}], "ok")
 
 (* ------------------------------------------------------------------------ *)
@@ -219,7 +232,7 @@ Failed(res) == res \in {"raise", "skip"}
 
 DbOf(s, ev) ==
   CASE ev \in GcSegs \cup {"GcBegin"} -> DbGet(s, s.gc.db)
-    [] ev \in {"VipAlloc", "VipAllocPicked", "VipFree", "VipGC", "OnCreate", "Import",
+    [] ev \in {"VipAlloc", "VipAllocPicked", "VipFree", "VipGC", "OnCreate", "OnCreateFail", "Import",
                "OnDelete", "Synchronize"} -> s.vips
     [] ev \in {"RuleCreate", "RuleUnlink", "RuleGC"} -> s.rules
     [] OTHER -> s.specs
@@ -395,6 +408,8 @@ Import(o)          == Idle /\ st.phase = "import" /\ o \in st.imp /\ Advance("Im
 Synchronize        == Idle /\ st.phase = "import" /\ st.imp = {} /\ Advance("Synchronize", <<>>)
 OnCreate(o)        == /\ Idle /\ st.phase = "run" /\ o \in st.live /\ o \notin st.pend
                       /\ Advance("OnCreate", <<o>>)
+OnCreateFail(o)    == /\ Idle /\ st.phase = "run" /\ o \in st.live /\ o \notin st.pend /\ ~HasDev(st, o)
+                      /\ Advance("OnCreateFail", <<o>>)
 OnDelete(o)        == /\ Idle /\ st.phase = "run" /\ (o \in st.pend \/ o \notin st.live)
                       /\ Advance("OnDelete", <<o>>)
 (* a pass over database d is offered when d's create action is in focus *)
@@ -425,6 +440,7 @@ Next ==
   \/ \E o \in OwnerIds : Import(o)
   \/ Synchronize
   \/ \E o \in OwnerIds : OnCreate(o)
+  \/ \E o \in OwnerIds : OnCreateFail(o)
   \/ \E o \in OwnerIds : OnDelete(o)
   \/ \E d \in {"vips", "rules", "specs"} : Initialize(d)
   \/ \E d \in {"vips", "rules", "specs"} : GcBegin(d)
